@@ -60,7 +60,7 @@ def overlay(G):
                 sym(impl, G.off['dma'] + off + c * stride, sz, 'dma.ch%d.%s' % (c, f[3:]))
     Ah = L['Ahbm']
     sym(impl, G.off['ahbm'] + Ah['busy_flag'][0], 2, 'ahbm.busy_flag')
-    for f in ('unit_size', 'burst_size', 'direction', 'dma_channel'):
+    for f in ('unit_size', 'burst_size', 'direction', 'dma_channel', 'write_burst_start'):
         off, sz, cnt, stride = Ah['ch.' + f]
         for c in range(3):
             sym(impl, G.off['ahbm'] + off + c * stride, sz, 'ahbm.ch%d.%s' % (c, f))
@@ -69,6 +69,12 @@ def overlay(G):
         base = G.off['btdmp'] + b * B['_size'][0]
         for f in ('transmit_clock_config', 'transmit_enable'):
             sym(impl, base + B[f][0], 2, 'btdmp%d.%s' % (b, f))
+        # hidden timing / status state of the audio port (no register writes it directly): arbitrary, within the class invariant
+        tp = sym(impl, base + B['transmit_period'][0], B['transmit_period'][1], 'btdmp%d.transmit_period' % b)
+        tt = sym(impl, base + B['transmit_timer'][0], B['transmit_timer'][1], 'btdmp%d.transmit_timer' % b)
+        te = sym(impl, base + B['transmit_empty'][0], B['transmit_empty'][1], 'btdmp%d.transmit_empty' % b)
+        tf = sym(impl, base + B['transmit_full'][0], B['transmit_full'][1], 'btdmp%d.transmit_full' % b)
+        A += [tp == 4096, z3.ULT(tt, tp), te == 1, tf == 0]          # the queue of the constructed graph is empty
     # the two Apbp::Impl heap objects
     DC, AI = L['DataChannel'], L['Impl']
     for nm in ('apbp_from_cpu', 'apbp_from_dsp'):
